@@ -37,7 +37,7 @@ CURATED = LONG_BLANKS + ['', ' ', '  ', 'a b', "it's", '"q"', '$(HOME)', '${HOME
            'a:~', 'a:~/b', '~:~', '/opt/p:~/p', 'x=~', 'x=~/y', 'a:~root', '~+', '~-', 'a:~+/b',
            '\U0001f600 smile', 'x y']
 
-CONTEXTS = ['cmd_arg', 'cmd_arg_reused_list', 'test_reused_list', 'cmd_env', 'cmd_str_envref', 'step_str_envref', 'cmd_word', 'cmds_multi', 'step_arg', 'step_jbos',
+CONTEXTS = ['cmd_arg', 'cmd_arg_reused_list', 'test_reused_list', 'cmd_env', 'cmd_str_envref', 'step_str_envref', 'cmd_word', 'test_word_env', 'cmds_multi', 'step_arg', 'step_jbos',
             'test_arg', 'test_env', 'driver_arg', 'driver_child', 'driver_child_wrap',
             'driver_nested', 'compile_opt', 'compile_opt_str', 'define_value',
             'link_opt', 'lib_opt', 'link_opt_str', 'include_path', 'desc_step', 'symlink_src', 'symlink_gen',
@@ -57,7 +57,7 @@ def admissible(ctx, s):
     """Is (ctx, s) inside the property's quantifier / expressible at all?"""
     if '\0' in s or '\n' in s or '\r' in s:
         return False
-    if ctx == 'cmd_word':
+    if ctx in ('cmd_word', 'test_word_env'):
         if s in ('', '.', '..') or '/' in s or s in SHELL_BUILTIN_WORDS:
             return False
         if len(s.encode('utf-8')) > 200:
@@ -223,6 +223,12 @@ def render_script(slots, script_slots=()):
             L.append("c%d = command('c%d', cmd=[%s, %s])" % (i, i, _r(s), _r(mark)))
             cmd_targets.append('c%d' % i)
             exp[i] = {'kind': 'argv', 'argv': [s, mark]}
+        elif ctx == 'test_word_env':
+            # the program's name as the first word of a test that also has an environment
+            words.append(s)
+            L.append("test([%s, %s], environment={'VF_E': 'e %d'})" % (_r(s), _r(mark), i))
+            have_tests = True
+            exp[i] = {'kind': 'argv', 'argv': [s, mark], 'env': {'VF_E': 'e %d' % i}}
         elif ctx == 'cmds_multi':
             L.append("c%d = command('c%d', cmds=[['vrec', %s, %s], ['vrec', %s, 'second', %s, 'x']])"
                      % (i, i, _r(mark), _r(s), _r(mark + 'b'), _r(s)))
@@ -921,11 +927,11 @@ def gen_cases(backend, tier, seed, contexts=CONTEXTS, script_contexts=SCRIPT_CON
                     + CURATED + rng.sample(pairs, 25) + rng.sample(rand, 40))
         else:
             pool = strings_a + pairs + rand
-        if ctx in ('cmd_word', 'step_arg', 'test_arg', 'cmd_arg'):
+        if ctx in ('cmd_word', 'test_word_env', 'step_arg', 'test_arg', 'cmd_arg'):
             # position-sensitive: a leading modifier-like character followed by
             # each special character (the first word of a command line goes
             # through extra quoting paths in both back ends)
-            leads = '-+@' if ctx == 'cmd_word' else '-'
+            leads = '-+@' if ctx in ('cmd_word', 'test_word_env') else '-'
             pool = pool + [l + c + 'x' for l in leads for c in ASCII
                            if not c.isalnum()] + [l + t for l in leads
                                                   for t in ('$x', '${x}', '$$', '$(x)', "a'b",
